@@ -130,6 +130,9 @@ int main(int argc, char** argv){
       else if (v == "knots_long") resize_ext(f, find_ext(f, "KNOTS0"), (long)t.nknots[0] + 2);
       else if (v == "knots_unsorted") { cf_hdu& h = f->hdu[find_ext(f, "KNOTS0")]; std::swap(h.data[0], h.data[h.ndata - 1]); }
       else if (v == "knots_nan") { cf_hdu& h = f->hdu[find_ext(f, "KNOTS0")]; h.data[1] = vs_const_bits64(0x7ff8000000000000ULL); }
+      else if (v == "knots_nan_first") { cf_hdu& h = f->hdu[find_ext(f, "KNOTS0")]; h.data[0] = vs_const_bits64(0x7ff8000000000000ULL); }
+      else if (v == "knots_ninf_first") { cf_hdu& h = f->hdu[find_ext(f, "KNOTS0")]; h.data[0] = vs_const_bits64(0xfff0000000000000ULL); }
+      else if (v == "knots_pinf_last") { cf_hdu& h = f->hdu[find_ext(f, "KNOTS" + std::to_string(nd - 1))]; h.data[h.ndata - 1] = vs_const_bits64(0x7ff0000000000000ULL); }
       else if (v == "extents_short") resize_ext(f, find_ext(f, "EXTENTS"), 1);
       else if (v == "foreign") { for (unsigned d = 0; d < nd; d++) drop_card(p, "ORDER" + std::to_string(d)); drop_card(p, "TYPE"); while (f->nhdu > 1) drop_ext(f, f->nhdu - 1); }
       else if (v == "naxis0") { p.naxis = 0; set_card(p, "NAXIS", "0"); }
@@ -142,7 +145,7 @@ int main(int argc, char** argv){
         else { // a table was returned: it must be well formed
           for (unsigned d = 0; d < r.ndim; d++) { eqi(lab + " returned table: coefficient count == nknots - order - 1", (long)r.naxes[d], (long)r.nknots[d] - (long)r.order[d] - 1);
             eqi(lab + " returned table: at least order + 1 coefficients", (long)r.naxes[d] >= (long)r.order[d] + 1, 1);
-            bool sorted = true, finite = true; for (uint64_t i = 0; i < r.nknots[d]; i++) { if (!vs_is_const(r.knots[d][i])) { finite = false; continue; } if (i && vs_is_const(r.knots[d][i - 1]) && vs_cmp_const(r.knots[d][i - 1], r.knots[d][i]) > 0) sorted = false; }
+            bool sorted = true, finite = true; for (uint64_t i = 0; i < r.nknots[d]; i++) { if (!vs_is_finite_const(r.knots[d][i])) { finite = false; continue; } if (i && vs_is_finite_const(r.knots[d][i - 1]) && vs_cmp_const(r.knots[d][i - 1], r.knots[d][i]) > 0) sorted = false; }
             eqi(lab + " returned table: knots finite", finite, 1); eqi(lab + " returned table: knots non-decreasing", sorted, 1); }
           uint64_t nc = 1; for (int d = (int)r.ndim - 1; d >= 0; d--) { eqi(lab + " returned table: strides match the axis lengths", r.strides[d], nc); nc *= r.naxes[d]; }
           eqi(lab + " returned table: coefficient array matches the image size", nc, f->hdu[0].ndata);
